@@ -284,9 +284,17 @@ class SymExec:
                     'control character would lose what was stored there before the loop)' % st.clobber, 'clobber')
         if why == 'return':
             # a terminator position is a position: it is >= 0 whatever the symbols in it are
-            ok = (st.acct.leq(body) or (st.nul_at is not None and st.acct.eq(Lin(0)))) and (st.acct.eq(st.extent) or (st.nul_at is not None))
+            # a function that accounts for everything it wrote on every successful return leaves nothing for update_offset
+            # (OUT8's summary); but where a caller measures with update_offset after the call all the same (because other
+            # printers it dispatches to do leave their text), strlen starts at the offset and needs a terminator there
+            all_accounted = self.leaves_tail.get(self.fn.name) is False and not getattr(self, 'measured', False)
+            ok = (st.acct.leq(body) or (st.nul_at is not None and st.acct.eq(Lin(0)))) and \
+                ((st.acct.eq(st.extent) and all_accounted) or (st.nul_at is not None))
             self.ob('OUT3', node, 'text left for the caller\'s update_offset is zero-terminated (grant of line %d)' % g['loc'][0], ok,
-                    'accounted %s, written %s, terminator %s' % (st.acct, st.extent, 'at %s' % st.nul_at if st.nul_at is not None else 'missing'),
+                    'accounted %s, written %s, terminator %s' % (st.acct, st.extent, 'at %s' % st.nul_at if st.nul_at is not None else
+                                                                 'missing' + ('' if ok or all_accounted else
+                                                                              ': a caller of %s measures what was printed with update_offset (strlen from the '
+                                                                              'offset), which then runs into whatever the buffer held before' % self.fn.name)),
                     'tail:%d' % g['loc'][0])
         else:
             ok = st.acct.eq(body)
@@ -482,6 +490,11 @@ class SymExec:
                 src = expr_str(strip_casts(args[1]))
                 nul = n.t.get('strlen(%s)' % src) == 1 and n.c == 1
                 lit = strip_casts(args[1])
+                if lit.get('k') == 'ref' and self.u.ty(lit.get('ty0', lit['ty']))['c'] == 'array' and 'const' in self.u.ty(lit.get('ty0', lit['ty']))['s']:
+                    # a constant array spelled as a string literal (static const char word[] = "null")
+                    dl = [d_ for d_ in list(self.fn.locals()) + list(getattr(self.u, 'globals', []) or []) if d_.get('d') == lit.get('d')]
+                    if dl and 'init' in dl[0] and strip_casts(dl[0]['init']).get('k') == 'str':
+                        lit = strip_casts(dl[0]['init'])
                 if lit.get('k') == 'str' and not n.t:
                     # a literal copied together with its terminator (memcpy(p, "..", sizeof("..")))
                     if n.c > len(lit['bytes']) + 1:
@@ -795,6 +808,32 @@ def printers_of(u):
     return out
 
 
+def _measured_after(u, name, seen=None):
+    """Does some caller run update_offset (strlen from the offset) after a successful return of `name` - directly, or because it
+    hands the result on to a caller that does."""
+    seen = seen or set()
+    if name in seen:
+        return False
+    seen = seen | {name}
+    for g in u.function_list:
+        cfg = None
+        for c in g.calls():
+            if callee_name(c) != name:
+                continue
+            cfg = cfg or g.cfg()
+            nd = cfg.node_of_expr(c['id'])
+            if nd is None:
+                continue
+            after = cfg.reachable(nd.id)
+            for m in after:
+                root = cfg.nodes[m].decl.get('init') if cfg.nodes[m].kind == 'decl' else getattr(cfg.nodes[m], 'expr', None)
+                if root is not None and m != nd.id and any(x.get('k') == 'call' and callee_name(x) == 'update_offset' for x in walk(root)):
+                    return True
+            if _measured_after(u, g.name, seen):
+                return True
+    return False
+
+
 def out23(units, R):
     from .outbuf import _out8_pass
     u = units['cJSON.c']
@@ -813,6 +852,7 @@ def out23(units, R):
         se = SymExec(u, fn, R)
         se.printers = printers
         se.leaves_tail = {k: v for k, v in leaves.items() if not k.startswith('requests:')}
+        se.measured = _measured_after(u, fn.name)
         for (rule, node, what, ok, detail, key) in se.run():
             R.ob(rule, fn, node, what, ok, detail, key=key + ':' + what[:40])
         total += se.ngrants
